@@ -25,6 +25,7 @@ void runRange(const Scn &scn, Out &out);
 void runRoute(const Scn &scn, Out &out);
 void runAuth(const Scn &scn, Out &out);
 void runCopier(const Scn &scn, Out &out);
+void runFs(const Scn &scn, Out &out);
 
 QByteArray errorPage(int code, const QByteArray &reason, bool nullReason);
 // one event-loop turn: timers and queued calls, then deferred deletes
